@@ -792,7 +792,11 @@ func sweeps(run *hx.Run) {
 					continue
 				}
 				for _, d := range []int{0, -1, 1} {
-					if d != 0 && (k == 3 || bg.block > 4097) {
+					// one before / one after the block end: at 4096 both, at 4095 only after, at 4097 only before
+					if d != 0 && (k == 3 || bg.block > 4097 || (bg.block == 4095 && d < 0) || (bg.block == 4097 && d > 0)) {
+						continue
+					}
+					if k == 3 && bg.block != 4096 {
 						continue
 					}
 					c := newSweep(comp, bg.block, distinct).history(k*bg.block+d, 0)
